@@ -253,6 +253,28 @@ def _r2(run, classes):
         run.ok('C03-R2', 'TotalRadiatedPower hydrogen sum', 'nhyd = sum over cached hydrogen species', sample=False)
     else:
         run.fail('C03-R2', '%s|TotalRadiatedPower|emission|hydrogen-sum' % ci.mod.name, ci.mod.relpath, fn.lineno, 'nhyd is not the sum over the cached hydrogen species')
+    # every neutral hydrogen isotope that is present is cached: an isotope that is absent (composition.get raises) must not end the search
+    run.subject('C03-R2')
+    pc = ci.methods.get('_populate_cache')
+    iso_loops = [l for l in ast.walk(pc) if isinstance(l, ast.For) and isinstance(l.iter, (ast.Tuple, ast.List)) and len(l.iter.elts) >= 2
+                 and any(isinstance(c, ast.Call) and isinstance(c.func, ast.Attribute) and c.func.attr == 'get' for c in ast.walk(l))] if pc is not None else []
+    if not iso_loops:
+        run.undecided('C03-R2', 'TotalRadiatedPower hydrogen isotopes', 'loop over the hydrogen isotopes not recognised')
+    else:
+        lp_ = iso_loops[0]
+        outer = [t for t in ast.walk(pc) if isinstance(t, ast.Try) and any(x is lp_ for b in t.body for x in ast.walk(b))
+                 and any(h.type is None or 'ValueError' in norm(h.type) or norm(h.type) == 'Exception' for h in t.handlers)]
+        inner = [t for t in ast.walk(lp_) if isinstance(t, ast.Try)]
+        names = [norm(e) for e in lp_.iter.elts]
+        if outer and not inner:
+            run.fail('C03-R2', '%s|TotalRadiatedPower|_populate_cache|isotope-search-aborted' % ci.mod.name, ci.mod.relpath, outer[0].lineno,
+                     'the lookup of the neutral hydrogen isotopes %s is wrapped as a whole in one try: the first isotope the plasma lacks ends the '
+                     'loop, so isotopes listed after it are never cached and their charge-exchange radiation is missing' % names)
+        elif set(names) >= {'hydrogen', 'deuterium', 'tritium'}:
+            run.ok('C03-R2', 'TotalRadiatedPower hydrogen isotopes', 'each of %s looked up on its own' % names, sample=False)
+        else:
+            run.fail('C03-R2', '%s|TotalRadiatedPower|_populate_cache|isotopes' % ci.mod.name, ci.mod.relpath, lp_.lineno,
+                     'neutral hydrogen donors are searched among %s only; documented: hydrogen, deuterium and tritium' % names)
     _trp_paths(run, classes['TotalRadiatedPower'])
     # bremsstrahlung function
     ci = classes['BremsFunction']
@@ -550,6 +572,9 @@ _TR = P + 'total_radiated_power.pyx'
 _BR = P + 'bremsstrahlung.pyx'
 _CO = 'cherab/core/utility/constants.pyx'
 MUTANTS = [
+    dict(name='trp-isotope-search-in-one-try', file=P + 'total_radiated_power.pyx',
+         find="        for hyd_isotope in (hydrogen, deuterium, tritium):\n            try:\n                hyd_species = self._plasma.get_composition().get(hyd_isotope, 0)\n            except ValueError:\n                pass\n            else:\n                self._hydrogen_species.append(hyd_species)\n",
+         replace="        try:\n            for hyd_isotope in (hydrogen, deuterium, tritium):\n                hyd_species = self._plasma.get_composition().get(hyd_isotope, 0)\n                self._hydrogen_species.append(hyd_species)\n        except ValueError:\n            pass\n", expect='C03-R2'),
     dict(name='trp-early-return-when-either-state-is-absent', file=P + 'total_radiated_power.pyx', find="        nhyd = 0\n        for hyd_species in self._hydrogen_species:",
          replace="        if ni <= 0 or ni_upper <= 0:\n            return spectrum\n        nhyd = 0\n        for hyd_species in self._hydrogen_species:", expect='C03-R2'),
     dict(name='ne-ni-to-ni-ni', file=_IE, find="radiance = RECIP_4_PI * self._rates.evaluate(ne, te) * ne * ni", replace="radiance = RECIP_4_PI * self._rates.evaluate(ne, te) * ni * ni", expect='C03-R2'),
